@@ -343,6 +343,16 @@ func (rn *runner) runInput(in map[string]string) {
 		}
 	case "mutexmisc":
 		rn.mutexPhase()
+	case "release":
+		rn.relOne(relCaseOf(in))
+	case "direct":
+		rn.directOne(directCase{in["call"], in["spec"], in["file"]})
+	case "limit":
+		rn.limitOne(limitCase{in["call"], in["old"], in["new"], in["helper"], atoi("L")})
+	case "persist":
+		if rn.st {
+			rn.persistOne(persistCase{in["call"], in["old"], in["new"], in["helper"], atoi("kw"), in["trunc"]})
+		}
 	case "kmodel":
 		for i := 0; i < 3; i++ {
 			if rn.kernelModelRound(atoi("procs"), atoi("goroutines"), atoi("iters"), atoi("paths"), seed+uint64(i)) {
